@@ -13,5 +13,5 @@ print("mutated",f,"matches",n)
 PY
 [ $? -eq 0 ] || exit 1
 cd /verif
-for p in "$@"; do ./check $p 2>/dev/null | tail -2; done
+for p in "$@"; do cp evidence/$p.json /verif/.cache/evidence-$p.keep 2>/dev/null; ./check $p 2>/dev/null | tail -2; [ -f /verif/.cache/evidence-$p.keep ] && mv /verif/.cache/evidence-$p.keep evidence/$p.json; done
 git -C /repo checkout -- .
